@@ -6,6 +6,8 @@ S3 tie       : harness/c19_harness.cpp drives the REAL ConstPool::add/fill/size/
                embed_const_pool (x86 Assembler, x86 Builder, a64 Assembler) / x86::Compiler::_new_const of /repo's working
                tree; the extracted model (coq/extract/Extract_ConstPool.v + ml/c19_driver.ml) consumes the same command
                stream; every returned offset / error / accessor / byte image must be identical
+               + X: constants read back ON THE HOST (JitRuntime) through label+offset operands (Compiler global/local, Builder)
+               + the extracted, proven-sound Coq judge (ConstPoolJudge.judge) applied to the implementation's transcripts
 S4 search    : an independent python monitor (interval list + dedup map + byte comparison; knows nothing of gaps, trees
                or the model) judges the property on EVERY answer of the implementation; a violated history is reported
                with the shortest prefix of the sequence that exhibits it
@@ -55,10 +57,13 @@ class SeqGen:
         self.lines += ["Q", "F"]
         self.count("invalid")
 
-    def finish(self, embed=None):
+    def finish(self, embed=None, execute=None):
         self.lines += ["Q", "F"]
         if embed is not None:
             self.lines.append("E %d %d" % embed)
+        if execute is not None:
+            self.lines.append("X %d" % execute)
+        self.lines.append("S")
         return self.lines
 
 
@@ -87,7 +92,7 @@ def gen_exhaustive(triple, length, kinds, rng):
         key = tuple(g.lines)
         if key not in seen:      # "repeat"/"part" fall back to a fresh value when there is nothing to repeat: drop duplicates
             seen.add(key)
-            out.append(g.finish())
+            out.append(g.finish(execute=(len(out) // 16) % 3 if len(out) % 16 == 0 else None))
     return out
 
 
@@ -136,21 +141,22 @@ def gen_random(rng, max_len, idx):
             g.lines.append("Q")
         elif r < 0.06:
             g.lines += ["Q", "F"]
-    return g.finish(embed=(idx % 6, rng.choice([0, 1, 2, 3, 5, 8, 13, 16, 31, 32, 33, 63, 64, 65, 100])) if idx % 2 == 0 else None), g.stats
+    return g.finish(embed=(idx % 6, rng.choice([0, 1, 2, 3, 5, 8, 13, 16, 31, 32, 33, 63, 64, 65, 100])) if idx % 2 == 0 else None,
+                    execute=(idx // 3) % 3 if idx % 3 == 0 else None), g.stats
 
 
 def gen_fixed():
     """Hand-written sequences aimed at the case splits of the proofs (gap reuse, several gaps of one class, the unit test)."""
     out = []
 
-    def seq(items, embed=None):
+    def seq(items, embed=None, execute=None):
         g = SeqGen(None)
         for (s, d) in items:
             if s in VALID:
                 g.add(s, d)
             else:
                 g.lines += ["Q", "F", "A %d %s" % (s, d.hex() if d else "-"), "Q", "F"]
-        return g.finish(embed)
+        return g.finish(embed, execute)
     z = bytes(64)
     # unit test of constpool.cpp: combined constants
     out.append(seq([(1, z[:1]), (2, z[:2]), (4, z[:4]), (4, z[:4]), (32, z[:32])], (0, 3)))
@@ -171,6 +177,10 @@ def gen_fixed():
     for m in range(6):
         out.append(seq([], (m, 6)))
     out.append(seq([(16, w[:16]), (8, w[8:16]), (2, w[:2]), (32, w[:32])], (5, 3)))
+    # host execution: read every constant back through its label, all three emitters, empty and non-empty pools
+    for m in range(3):
+        out.append(seq([(1, b"\x01"), (8, w[8:16]), (1, b"\x03"), (2, w[2:4]), (4, w[4:8]), (64, w), (32, w[32:]), (4, w[60:]), (16, w[16:32]), (3, b"abc"), (1, b"\x01")], None, m))
+        out.append(seq([], None, m))
     out.append(seq([(8, w[:8]), (4, w[4:8]), (1, b"\x77")], (4, 2)))
     out.append(seq([(64, w), (32, w[32:]), (4, w[60:])], (4, 0)))
     return out
@@ -316,6 +326,26 @@ class Monitor:
                 break
 
 
+    def on_x(self, cmd, ans):
+        mode = int(cmd.split()[1])
+        name = ["x86-compiler-global", "x86-compiler-local", "x86-builder"][mode]
+        a = ans.split()
+        if a[1:2] == ["UNSUPPORTED"]:
+            return
+        if a[1:2] == ["ERROR"] or "GUARD-BROKEN" in a:
+            self.report("C19/execute/%s/failed" % name, "generating/running the reader function answered %r" % ans[:100])
+            return
+        got = bytes.fromhex(a[1]) if len(a) > 1 else b""
+        pos = 0
+        for i, (s, d, o) in enumerate(self.adds):
+            if got[pos:pos + s] != d:
+                self.report("C19/execute/%s/constant-differs" % name, "the host read %s through the operand of successful add #%d (size %d, offset %d); the constant is %s" % (
+                    got[pos:pos + s].hex(), i, s, o, d.hex()))
+                break
+            pos += s
+        self.executed = getattr(self, "executed", 0) + len(self.adds)
+
+
 def parse_add(line):
     t = line.split()
     size = int(t[1])
@@ -345,8 +375,12 @@ def monitor_sequence(lines, answers):
                 mon.on_f(a)
             elif k == "E":
                 mon.on_e(c, a)
+            elif k == "X":
+                mon.on_x(c, a)
         except (ValueError, IndexError, KeyError) as e:
             found.append(("C19/protocol", "unparsable answer %r to %r (%s)" % (a[:100], c[:100], e), i))
+    if getattr(mon, "executed", 0):
+        mon.classes["read-back-on-host"] = mon.executed
     return found, mon.classes
 
 
@@ -398,7 +432,7 @@ def run_chunks(exe, seqs, nshards, timeout):
 def shrink(impl, lines, key):
     """Greedy minimisation of a violating history: drop adds one by one while the monitor still reports `key`."""
     adds = [l for l in lines if l[0] == "A"]
-    tail = [l for l in lines if l[0] == "E"][-1:] if "/embed/" in key else []
+    tail = [l for l in lines if l[0] == "E"][-1:] if "/embed/" in key else ([l for l in lines if l[0] == "X"][-1:] if "/execute/" in key else [])
 
     def build(adds):
         out = [lines[0]]
@@ -423,8 +457,15 @@ def shrink(impl, lines, key):
     return build(adds)
 
 
-def canon(impl_line):
-    return impl_line.split(" | ")[0].rstrip()
+def canon(impl_line, cmd=""):
+    left, _, right = impl_line.partition(" | ")
+    left = left.rstrip()
+    if cmd[:1] == "E" and cmd.split()[1] != "5":
+        # the model also predicts where the label is bound and how long the section becomes (embed_layout, C19_embed_layout)
+        kv = dict(x.split("=", 1) for x in right.split() if "=" in x)
+        hx = left.split()[1] if len(left.split()) > 1 else ""
+        return ("E %s %s %s" % (hx, kv.get("lab"), kv.get("end"))).replace("E  ", "E  ")
+    return left
 
 
 def run(ck):
@@ -507,6 +548,42 @@ def run(ck):
             ri[ci] = ans2
             ck.violation("C19/crash-not-reproducible-alone", "a harness process failed (rc=%s: %s) but sequence %d alone runs" % (rc, err[-200:], ci),
                          {"commands": lines, "broken": "harness stream (state carried over R/N between sequences?)"}, no_input=True)
+    # the extracted Coq judge (C19_judge_sound / C19_judge_accepts_model) applied to the ANSWERS OF THE IMPLEMENTATION
+    jseqs, jidx = [], []
+    for si, (lines, ai) in enumerate(zip(seqs, ri)):
+        if ai is None or (not quick and si >= n_fixed + n_ex and si % 4):
+            continue
+        # one transcript per (Q, F) snapshot: the last one and up to two earlier ones (stability: earlier constants must still read back)
+        snaps = [i for i in range(1, len(lines)) if lines[i] == "F" and lines[i - 1] == "Q"]
+        snaps = snaps[-1:] + snaps[:-1][:2]
+        try:
+            for sn in snaps:
+                q = ai[sn - 1].split(); f = ai[sn].split()
+                jl = ["j"]
+                for c, a in zip(lines[:sn], ai[:sn]):
+                    if c[0] == "A":
+                        t = c.split(); r = a.split()
+                        hx = t[2] if len(t) > 2 else "-"
+                        if int(t[1]) in VALID:
+                            hx = hx[:2 * int(t[1])]
+                        jl.append("a %s %s %s" % (t[1], hx, "ok " + r[2] if r[1] == "ok" else "err"))
+                jl.append("J %s %s %s %s" % (f[1] if len(f) > 1 and f[1] != "GUARD-BROKEN" else "-", q[1], q[2], q[3]))
+                jseqs.append(jl); jidx.append(si)
+        except (IndexError, ValueError):
+            continue
+    rj, fail_j = run_chunks(model, jseqs, max(2, vlib.NPROC // 2), tmo)
+    n_judged = 0
+    for jl, aj, si in zip(jseqs, rj, jidx):
+        if aj is None:
+            continue
+        n_judged += 1
+        if aj[-1].strip() != "J 1":
+            ck.violation("C19/coq-judge-rejects", "the proven judge (ConstPoolJudge.judge, C19_judge_sound) rejects the transcript of the implementation "
+                         "for a history of %d adds (answer %r)" % (len(jl) - 2, aj[-1]), {"commands": seqs[si], "impl": ri[si][-4:]})
+    if fail_j:
+        ck.violation("C19/model-driver-crash", "judge stream failed: %s" % (fail_j[:1],), {"detail": str(fail_j[:1]), "broken": "ml/c19_driver.ml (judge)"}, no_input=True)
+    ck.log("coq judge: %d transcripts of the implementation judged" % n_judged)
+
     # the same streams under ASan/UBSan (memory safety of add/fill/embed on the generated histories; exploration, not an obligation)
     step = 8 if quick else 4
     sub = list(range(n_fixed)) + list(range(n_fixed, len(seqs), step))
@@ -534,6 +611,7 @@ def run(ck):
 
     disagreements = 0
     served = {}
+    quirk = {"gaps_lost_by_pop_several_quirk": 0, "histories_where_the_quirk_fired": 0, "adds_that_reused_a_gap_per_model": 0}
     n_shrunk = [0]
     nontrivial = set()
     judged = 0
@@ -563,7 +641,15 @@ def run(ck):
         if am is None:
             continue
         for i, (x, y) in enumerate(zip(ai, am)):
-            if canon(x) != y.rstrip():
+            if x.startswith("X UNSUPPORTED"):
+                continue
+            if x.strip() == "S" and y.startswith("S "):
+                t = y.split()
+                quirk["gaps_lost_by_pop_several_quirk"] += int(t[1])
+                quirk["histories_where_the_quirk_fired"] += 1 if int(t[1]) else 0
+                quirk["adds_that_reused_a_gap_per_model"] += int(t[2])
+                continue
+            if canon(x, lines[i]).split() != y.split():
                 disagreements += 1
                 if not found and first_corr is None:
                     first_corr = (lines[:i + 1], x, y)
@@ -587,7 +673,7 @@ def run(ck):
                  "a sequence counts as non-trivial when, judged from the implementation's answers alone, at least one add re-used a gap, was served from a part of a "
                  "wider constant or hit an identical earlier constant (distinct add-lists counted)",
          "samples": samples, "sequences": len(seqs), "commands": total_lines, "answers_judged_by_monitor": judged,
-         "model_vs_impl_disagreeing_sequences": disagreements, "adds_served_as": served, "sequences_also_run_under_asan_ubsan": len(sub), "input_distribution": dist},
+         "model_vs_impl_disagreeing_sequences": disagreements, "adds_served_as": served, "model_path_counters": quirk, "sequences_also_run_under_asan_ubsan": len(sub), "transcripts_judged_by_extracted_coq_judge": n_judged, "input_distribution": dist},
         assumptions=["the C++ harness calls the real ConstPool::add/fill/reset/size/alignment/min_item_size and embed_const_pool/_new_const of /repo's working tree",
                      "theorems are about the Gallina model; the model is tied to the code by the differential run of this check (exact offsets, errors, accessors, byte images)",
                      "the per-size red-black tree is modelled as a key-sorted list (set semantics; the tree itself is C18's subject); allocation never fails (C15's subject)",
